@@ -33,6 +33,10 @@ fn clamp(x: u32) -> u32 {
     x.min(OOB)
 }
 
+fn clamp64(x: i64) -> i64 {
+    x.max(-(OOB as i64)).min(OOB as i64)
+}
+
 /// content token of a byte string: FNV-1a (64 bit) and the length; "none" for no bytes
 fn digest(data: &[u8]) -> String {
     if data.is_empty() {
@@ -105,8 +109,12 @@ fn project_image(im: &Image) -> Value {
         Some(t) => (true, t.get_row() + 1, t.get_col() + 1, *t.get_row_off(), *t.get_col_off()),
         None => (false, 0, 0, 0, 0),
     };
+    let ext = match im.get_one_cell_anchor() {
+        Some(a) if !two => [clamp64(*a.get_extent().get_cx()), clamp64(*a.get_extent().get_cy())],
+        _ => [0, 0],
+    };
     json!({
-        "r1": clamp(from.get_row() + 1), "c1": clamp(from.get_col() + 1), "r2": clamp(r2), "c2": clamp(c2), "two": two,
+        "r1": clamp(from.get_row() + 1), "c1": clamp(from.get_col() + 1), "r2": clamp(r2), "c2": clamp(c2), "two": two, "ext": ext,
         "off": [*from.get_col_off(), *from.get_row_off(), co2, ro2],
         "nm": im.get_image_name(), "dg": digest(im.get_image_data()),
     })
